@@ -66,7 +66,7 @@ def explicit(targets, labels, optK, streams, ops, tags, complete=True):
 def line_cases(quick):
     out = []
     two = [b"h1", b"h10"]
-    for L in (64, 65, 8191, 8192, 8193, 131071, 131072, 131073):
+    for L in (64, 65, 2047, 2048, 2049, 8191, 8192, 8193, 131071, 131072, 131073):
         follow = _line(1500, b"y") + b"zz"
         p = _line(L) + follow
         huge = ["huge"] if L > 100000 else []
@@ -257,6 +257,68 @@ def two_host_cases(quick):
     return out
 
 
+def percent_cases():
+    """'%' in the data must mean nothing: err.c's _verr() is a printf of its own; a tail or line handed to it as
+    the FORMAT loses its '%' (seeded C05-2/-5/-8).  Tails and lines, labelled and -N, first and later tail pieces"""
+    out = []
+    two = [b"h1", b"h10"]
+    texts = [b"100% ok", b"%", b"%%", b"50%% done %", b"%s%d%p%S%m%H%P%n", b"a%sb", b"%5d|%-3s|%lu", b"trailing %",
+             b"% d", b"%\n%%%"]
+    for t in texts:
+        for labels in (True, False):
+            for key in ((1, "o"), (0, "e")):
+                out.append(mk(two, labels, False, {key: [t]}, ["percent", "tail"] + ([] if labels else ["-N"])))
+                out.append(mk(two, labels, False, {key: [b"line " + t + b"\n" + t]}, ["percent"] + ([] if labels else ["-N"])))
+    # the '%' beyond the first piece of a tail longer than the flush buffer (pieces 2.. are unlabelled)
+    for n in (8191, 8192, 16382, 16390):
+        for key in ((1, "o"), (1, "e")):
+            out.append(mk(two, True, False, {key: [_txt(n, b"t") + b"50% of %s %%"]}, ["percent", "long-tail"]))
+    return out
+
+
+def ring_cases(growth):
+    """arrivals that end exactly at the physical end of the ring array (capacity+1 slots) while free space
+    continues at slot 0 -- the descriptor write then reads in two pieces and the second finds nothing (EAGAIN)
+    or EOF (seeded C05-1/-4) -- and growth of a buffer whose unread data wraps around the end (seeded C05-7):
+    for the initial capacity S of the code under test and the next one"""
+    out = []
+    path = growth.get("path", [64])
+    two = [b"h1", b"h10"]
+    for S in path[:2]:
+        ks = list(range(1, min(S, 70) + 1)) if S <= 200 else [1, 2, 3, 10, 63, 64, 65, 100, S // 2, S - 2, S - 1, S]
+        for k in ks:
+            # a line of k bytes (read and flushed: the indices stand at k), then exactly the rest of the array
+            rest = S + 1 - k
+            if rest < 1:
+                continue
+            first, second, last = _line(k, b"a"), _txt(rest - 1, b"b") + b"\n", b"last\n"
+            hx = relay.hexs
+            for strm in ("o", "e"):
+                if (k + (strm == "e")) % 2 and S <= 200 and k > 12:
+                    continue                      # alternate the stream to halve the count
+                ops = ["feed 1 %s %s" % (strm, hx(first)), "feed 1 %s %s" % (strm, hx(second)), "feed 1 %s -" % strm,
+                       "feed 1 %s %s" % (strm, hx(last)), "eof 1 %s" % strm, "drain 1 %s" % strm, "flush 0", "flush 1"]
+                out.append(explicit(two, True, False, {(1, strm): [first, second, last]}, ops, ["ring-end"]))
+                # ... and with EOF right behind the piece that ends at the array's end
+                ops = ["feed 1 %s %s" % (strm, hx(first)), "feed 1 %s %s" % (strm, hx(second)), "eof 1 %s" % strm,
+                       "drain 1 %s" % strm, "flush 0", "flush 1"]
+                out.append(explicit(two, True, False, {(1, strm): [first, second]}, ops, ["ring-end", "eof-behind"]))
+                # ... unterminated: the piece stays in the buffer
+                sec2 = _txt(rest, b"c")
+                ops = ["feed 1 %s %s" % (strm, hx(first)), "feed 1 %s %s" % (strm, hx(sec2)), "feed 1 %s -" % strm,
+                       "feed 1 %s %s" % (strm, hx(b"!\n")), "eof 1 %s" % strm, "drain 1 %s" % strm, "flush 0", "flush 1"]
+                out.append(explicit(two, True, False, {(1, strm): [first, sec2, b"!\n"]}, ops, ["ring-end", "unterminated"]))
+    # wrapped data + growth: short lines consumed first, then a line longer than the current capacity
+    for pre in (b"hi\n", b"a\nbc\n", _line(40, b"p"), _line(63, b"p") + b"q\n"):
+        for S in path[:4]:
+            for extra in (1, 2, 136):
+                p = pre + _line(S + extra, b"L") + b"after\n" + b"t"
+                out.append(mk(two, True, False, {(1, "o"): [p]}, ["wrap-grow", "chunk:whole"]))
+                out.append(mk(two, True, False, {(0, "e"): cuts_at(p, [len(pre), len(pre) + S // 2, len(pre) + S])},
+                              ["wrap-grow", "chunk:around"]))
+    return out
+
+
 def pinned_cases(growth, magic, quick):
-    return (line_cases(quick) + growth_cases(growth, quick) + tail_cases() + empty_cases() + burst_cases() +
+    return (percent_cases() + ring_cases(growth) +line_cases(quick) + growth_cases(growth, quick) + tail_cases() + empty_cases() + burst_cases() +
             marker_cases(magic) + label_cases() + eof_order_cases() + two_host_cases(quick))
